@@ -8,6 +8,9 @@ REL = {"C01": ["C07", "C15"], "C02": ["C11"], "C05": ["C04"], "C06": ["C12"], "C
 REDO = "--redo-checks" in sys.argv  # re-run demo + checks with the current machinery, keep the suite verdict already obtained
 SEEDDIR = next((a.split("=", 1)[1] for a in sys.argv if a.startswith("--dir=")), "/tmp/seed_out")
 dirs = sorted(d for d in glob.glob(SEEDDIR + "/C??_?") if os.path.exists(os.path.join(d, "patch.diff")) and (REDO or not os.path.exists(os.path.join(d, "result.json"))))
+ONLY = next((a.split("=", 1)[1].split(",") for a in sys.argv if a.startswith("--only=")), None)  # property ids
+if ONLY:
+    dirs = [d for d in dirs if os.path.basename(d)[:3] in ONLY]
 def ev(d):
     prop = os.path.basename(d)[:3]
     props = ",".join([prop] + ([] if "--own-only" in sys.argv else REL.get(prop, [])))
